@@ -9,6 +9,7 @@ from .report import Report
 
 VERIF = facts.VERIF
 CHECKS = {}
+TV = "translation_validation"
 
 
 def check(pid):
@@ -116,3 +117,36 @@ def c19(tier, seed):
         "reachable panic call, is a violation.",
         trusted_base=["engine/bv.py laws", "engine/models.py core models", "rustc front end"],
         coverage_extra={"exhaustive": True})
+
+
+from . import check_threefish
+
+
+@check("C09")
+def c09(tier, seed):
+    r = Report("C09", tier, TV, seed)
+    for cfg in ("K1", "K4"):
+        check_threefish.c09(r, cfg)
+    r.floor("cipher x config instances", len(r.holds) + len(r.violations), 12)
+    r.assumptions = ["spec/threefish.py transcribes Skein 1.3 (validated against the NIST vectors by spec/selftest.py)",
+                     "normalisation laws of engine/bv.py", "core slice/iterator models"]
+    return r.finish(
+        "with_tweak followed by encrypt_block, for symbolic key bytes, tweak words and block bytes, is evaluated to a "
+        "value graph (all loops have compile-time bounds) and must be identical, output bit by output bit, to the graph "
+        "of the Skein 1.3 definition (key schedule with C240 and tweak words, 72/72/80 MIX rounds with the published "
+        "rotation constants, word permutation, subkey injection every four rounds, little-endian words). Done for the "
+        "default build (K1, unrolled) and the no_unroll feature (K4); both equal the specification, hence each other.",
+        trusted_base=["spec/threefish.py", "engine/bv.py laws", "engine/models.py"], coverage_extra={"exhaustive": True})
+
+
+@check("C10")
+def c10(tier, seed):
+    r = Report("C10", tier, TV, seed)
+    for cfg in ("K1", "K4"):
+        check_threefish.c10(r, cfg)
+    r.floor("size x order x config instances", len(r.holds) + len(r.violations), 12)
+    r.assumptions = ["normalisation laws of engine/bv.py (x+k-k = x, x^y^y = x, rotr(rotl(x,r),r) = x)"]
+    return r.finish(
+        "decrypt_block(encrypt_block(b)) and encrypt_block(decrypt_block(b)) are evaluated with the whole subkey array "
+        "and the block as free symbols; the result must normalise to the original block bits. 3 sizes x 2 orders x "
+        "{unrolled, no_unroll}.", trusted_base=["engine/bv.py laws", "engine/models.py"], coverage_extra={"exhaustive": True})
